@@ -33,7 +33,7 @@ CHECKS = {
                 note="Bounds: lengths around each boundary, one content pattern per packet; compares through public getters only; oracle code shares nothing with the library.",
                 technique="bounded exhaustive enumeration of executions of the real encoder+decoder (small-scope), independent field-by-field oracle"),
     "C07": dict(level="model_checking", design="4/C07",
-                text="Same enumeration as C01 plus message type 0 and payload type byte 0 as batch members, the empty batch, extra minimum sizes and packets with protocol versions of their own; every returned frame is parsed by an independent frame walker (size bounds, >=1 complete message, tiling, zero padding only up to min, every payload byte exactly once and in order).",
+                text="Same enumeration as C01 plus message type 0 and payload type byte 0 as batch members, the empty batch, every batch of 1..3 packets over {zero-length data, zero-length status, small data, small status, segmenting data} that holds a zero-length payload (4 contexts, all encode overloads; one OPEN known finding: such a packet can leave a frame without any message), extra minimum sizes and packets with protocol versions of their own; every returned frame is parsed by an independent frame walker (size bounds, >=1 complete message, tiling, zero padding only up to min, every payload byte exactly once and in order).",
                 note="Independent walker in ref/wire.h (no library code); generated packets never use payload-type byte 0 so padding is unambiguous.",
                 technique="bounded exhaustive enumeration of encoder executions, independent frame-walker oracle"),
     "C08": dict(level="model_checking", design="4/C08",
